@@ -601,7 +601,7 @@ func ruleR21(c *Ctx) *RuleResult {
 			if fn != nil {
 				for _, g := range c.GCTail(fn).GCs {
 					for i, ef := range g.Effects {
-						if !(storeToField(ef, "Entries") && ef.Args[1].Op == "res" && strings.Contains(ef.Args[1].String(), "builtin:append")) {
+						if !(storeToField(ef, "Entries") && ef.Args[1].Op == "res" && (strings.Contains(ef.Args[1].String(), "builtin:append") || strings.Contains(ef.Args[1].String(), "stddo:slices.Insert"))) {
 							continue
 						}
 						owner := noEpoch(ef.Args[0].Args[0])
